@@ -309,10 +309,21 @@ class Prop:
                     tree = self._from_shape(rng, shape, list(lab))
                     for sort in (True, False):
                         yield dict(kind="load", sort=sort, tree=tree, how=rng.choice(HOWS))
-        nrand = 150 if tier == "quick" else 2500
-        for _ in range(nrand):
-            budget = [rng.choice([6, 12, 25, 40])]
-            tree = self._random_dir(rng, budget, 1)
+        nrand = 220 if tier == "quick" else 3000
+        for i in range(nrand):
+            n = rng.choice([3, 5, 8, 12, 18, 25, 40])
+            r = rng.random()
+            if r < 0.2:      # one wide folder (stresses the sort), some entries nested
+                shape = tuple((tuple(() for _ in range(rng.randint(0, 3))) if rng.random() < 0.2 else ()) for _ in range(min(n, 16)))
+            elif r < 0.3:
+                tree = self._random_dir(rng, [n], 1)
+                yield dict(kind="load", sort=rng.random() < 0.6, tree=tree, how=rng.choice(HOWS))
+                continue
+            else:
+                shape = H.random_shape(rng, n, deep=rng.choice([0.15, 0.4, 0.7]))
+            nl = sum(1 for _ in _leaves(shape))
+            labels = [rng.choice([0, 0, 0, 0, 1, 1, 2]) if rng.random() < 0.9 else 0 for _ in range(nl)]
+            tree = self._from_shape(rng, shape, labels)
             yield dict(kind="load", sort=rng.random() < 0.6, tree=tree, how=rng.choice(HOWS))
         # FileSystemEntry constructor + mappers on arbitrary arguments
         nent = 120 if tier == "quick" else 1200
@@ -576,12 +587,19 @@ class Prop:
             obs = []
         fail = None
         d = dict((k, v) for k, v in data)
-        # statement: a dict with "d" is a folder named d["n"]; otherwise a file with the three values
-        if back is not None:
-            if ("d" in d) != back.is_dir or back.name != d.get("n"):
-                fail = f"deser: {data!r} gives {obs_entry(back)!r}"
-            elif not back.is_dir and (back.size != int(d["s"]) or (back.mdate is None) != (d["m"] is None)):
-                fail = f"deser: {data!r} gives {obs_entry(back)!r}"
+        # statement: a dict with a key "d" is a folder named d["n"]; any other dict must hold "n", a size "s" and an
+        # mtime "m" (None allowed) and is that file; anything else is refused
+        def num(v):
+            return isinstance(v, (int, float)) and not isinstance(v, str)
+        if "d" in d:
+            want = [d["n"], True, 0, []] if "n" in d else None
+        elif all(k in d for k in ("n", "s", "m")) and num(d["s"]) and (d["m"] is None or num(d["m"])):
+            want = [d["n"], False, int(d["s"]), ratio(None if d["m"] is None else float(d["m"]))]
+        else:
+            want = None
+        got = None if back is None else obs_entry(back)
+        if got != want:
+            fail = f"deser: {data!r} gives {got!r}, expected {want!r}"
         if back is not None and not isinstance(back.name, str):
             # names that are not str are outside the model: keep the case out of the comparison by making it trivial
             obs = []
